@@ -10,7 +10,7 @@ The same trees are observed in the stacked-time evaluator (eval_func / eval_jaco
 rows compared) and in the flat / nonflat steady evaluators (levels and changes, time 0 and time k); user context functions blend and
 prodsq are known to the spec by their definition.
 """
-import os, math, random
+import os, math, random, zlib
 import numpy as np
 import scipy.stats, scipy.special
 import irispie as ir
@@ -365,7 +365,8 @@ def run(chk):
     chk.add_tlc(r, "AldiMC")
     keep_p = 1.0 if thorough else 0.06
     items, total, rational = [], 0, 0
-    for st in tlaval.parse_dump(dump, want=lambda b: "done = TRUE" in b and (thorough or rnd.random() < keep_p or "kind |-> \"d2\"" not in b)):
+    for st in tlaval.parse_dump(dump, want=lambda b: "done = TRUE" in b and (thorough or "kind |-> \"d2\"" not in b
+                                                                              or zlib.crc32((str(chk.seed) + b[b.index("sc ="):]).encode()) < keep_p * 2 ** 32)):
         if not st["out"]["law"]:
             raise MachineryError("AldiMC: law false in dump")
         total += 1
